@@ -586,3 +586,31 @@ func TestK12ByteReaderSources(t *testing.T) {
 		t.Errorf("gzip.NewReader(bytes.Reader): %d bytes left, want 8", src.Len())
 	}
 }
+
+// 10b: C03/C18 an invalid distance symbol must not hand out an extra byte (AVX2 loop un-writes the length symbol).
+func TestT10bInvalidDistSymbol(t *testing.T) {
+	for _, nlit := range []int{10, 300} {
+		w := &bitw{}
+		w.bits(1, 1)
+		w.bits(1, 2)
+		for i := 0; i < nlit; i++ {
+			w.fixedLit('a' + i%5)
+		}
+		w.fixedLit(257)
+		w.code(30, 5) // distance symbol 30 does not exist
+		for i := 0; i < 400; i++ {
+			w.fixedLit('z')
+		}
+		w.fixedLit(256)
+		stream := w.flush()
+		want, _ := stdInflate(stream)
+		got, err := io.ReadAll(flate.NewReader(bytes.NewReader(stream)))
+		var ce flate.CorruptInputError
+		if !errors.As(err, &ce) {
+			t.Errorf("nlit=%d err=%v", nlit, err)
+		}
+		if !bytes.Equal(got, want) {
+			t.Errorf("nlit=%d: handed out %d bytes (%q...), std %d", nlit, len(got), got[len(got)-3:], len(want))
+		}
+	}
+}
